@@ -441,7 +441,7 @@ func (qs Qsolexa) Encode(e Encoding) (q byte) {
 		return ' '
 	}
 	switch e {
-	case Sanger, Illumina1_8:
+	case Sanger, Illumina1_8, Illumina1_9:
 		q = byte(qs.Qphred())
 		if q <= 93 {
 			q += 33
